@@ -163,6 +163,7 @@ class Interp:
         self.frames = []
         self.loop_stack = []
         self.seen_aggdecl = set()
+        self.frame_info = []
 
     # -- bookkeeping ------------------------------------------------------
     def note(self, k, n=1):
@@ -208,6 +209,7 @@ class Interp:
         for (ty, nm), v in zip(f.params, vals):
             scope[nm] = v
         self.frames.append([scope])
+        self.frame_info.append({"params": set(scope), "after_call": False, "callee_wrote": False})
         saved_loops = self.loop_stack
         self.loop_stack = []
         try:
@@ -218,6 +220,11 @@ class Interp:
                 ret = r.value
         finally:
             self.frames.pop()
+            info = self.frame_info.pop()
+            if self.frame_info:
+                self.frame_info[-1]["after_call"] = True
+                if info["callee_wrote"]:
+                    self.frame_info[-1]["callee_wrote_before"] = True
             self.loop_stack = saved_loops
             self.depth -= 1
         if f.ret == M.VOID:
@@ -385,6 +392,11 @@ class Interp:
         if isinstance(e, M.Lit):
             return e.value
         if isinstance(e, M.Var):
+            info = self.frame_info[-1] if self.frame_info else None
+            if info is not None and info["after_call"] and e.name in info["params"]:
+                self.note("own-param-read-after-call")
+                if info.get("callee_wrote_before"):
+                    self.note("own-param-read-after-callee-wrote-its-param")
             return self.lookup(e.name)[e.name]
         if isinstance(e, M.Bin):
             return self.eval_bin(e.op, e.l, e.r)
@@ -397,6 +409,10 @@ class Interp:
             one = 1.0 if c == "float" else 1
             new = scalar_op("+" if e.op == "++" else "-", old, one, c)
             sc[e.var.name] = new
+            info = self.frame_info[-1] if self.frame_info else None
+            if info is not None and self.depth >= 2 and e.var.name in info["params"]:
+                info["callee_wrote"] = True
+                self.note("callee-param-write")
             self.note("affix:" + ("pre" if e.pre else "post"))
             self.note("op")
             return new if e.pre else old
@@ -567,6 +583,10 @@ class Interp:
 
     def assign(self, target, v):
         if isinstance(target, M.Var):
+            info = self.frame_info[-1] if self.frame_info else None
+            if info is not None and self.depth >= 2 and target.name in info["params"]:
+                info["callee_wrote"] = True
+                self.note("callee-param-write")
             self.lookup(target.name)[target.name] = v
             return
         if isinstance(target, M.Index):
